@@ -119,6 +119,19 @@ def run_case(case):
             if ps in net.ctl and pd in net.ctl and ps != pd:
                 net.call(ps, lambda node, pd=pd, pt=pt: node.write(L.Frame(L.Header(pd, pt), b"pre")), timeout_ms=20000)
                 net.settle(2000)
+        pp = case.get("pre_partial")
+        if pp and pp["src"] in net.ctl:
+            # history: an earlier fragmented multicast of ANOTHER node lost its last fragment on the air; every receiver is left
+            # with a half-built message, which must not keep the next sender's multicast out
+            class DropLast:
+                def on_tx(self, pkt):
+                    if not pkt.is_ack and pkt.src.name == str(pp["src"]) and len(pkt.payload) >= 8 and pkt.payload[6] == 150:
+                        pkt.drop = True
+            net.med.fault = DropLast()
+            net.call(pp["src"], lambda node: node.multicast(bytes((3 * i) & 0xFF for i in range(pp["len"])), 9, pp["level"]), timeout_ms=20000)
+            net.settle(2000)
+            net.med.fault = None
+            res.label("after-an-incomplete-multicast-of-another-node")
         net.drain_queues()
         # relays whose application has not read its queue: 6 unrelated frames are pending
         for a in case.get("full_queue", []):
@@ -380,6 +393,16 @@ def _enum_history():
             yield {"nodes": rnodes, "sender": snd, "level": level, "type": 1, "msg": "72656c6179", "pre_writes": [], "full_queue": fullq}
 
 
+def _enum_after_partial():
+    """the judged multicast (single-frame and fragmented) follows another node's fragmented multicast whose last fragment was lost"""
+    pop = [0, 0o1, 0o2, 0o3, 0o12]
+    nodes = [{"addr": a, "kind": "net", "mc": True} for a in pop]
+    for psrc, plen in ((0o1, 60), (0o2, 30), (0o1, 100)):
+        for snd in (0, 0o3):
+            for msg in ("6d63", "51" * 40, "52" * 72):
+                yield {"nodes": nodes, "sender": snd, "level": 1, "type": 1, "msg": msg, "pre_partial": {"src": psrc, "len": plen, "level": 1}}
+
+
 def _enum_racing(step):
     """a level-1 member with a slow application loop starts a write to an absent child while the multicast lands: its start
     is swept from 2 ms before to 4 ms after the multicast call"""
@@ -411,9 +434,9 @@ def _enum_relay_frames():
 def _parts(tier):
     if tier == "quick":
         return [Part("relay-frame-by-frame", "enum", _enum_relay_frames, exhaustive=True), Part("enum-sender-class-x-level", "enum", _enum, exhaustive=True), Part("write-racing-the-multicast-sweep", "enum", _enum_racing(250), exhaustive=True), Part("enum-history-and-relays", "enum", _enum_history, exhaustive=True),
-                Part("generated", "gen", _strategy, n=300)]
+                Part("after-an-incomplete-multicast", "enum", _enum_after_partial, exhaustive=True), Part("generated", "gen", _strategy, n=300)]
     return [Part("relay-frame-by-frame", "enum", _enum_relay_frames, exhaustive=True), Part("enum-sender-class-x-level", "enum", _enum, exhaustive=True), Part("write-racing-the-multicast-sweep", "enum", _enum_racing(50), exhaustive=True),
-            Part("enum-history-and-relays", "enum", _enum_history, exhaustive=True),
+            Part("enum-history-and-relays", "enum", _enum_history, exhaustive=True), Part("after-an-incomplete-multicast", "enum", _enum_after_partial, exhaustive=True),
             Part("generated", "gen", _strategy, n=15000)]
 
 
